@@ -98,7 +98,8 @@ impl<I: SendmsgSyscall> SendmsgSyscall for NioSendmsgSyscall<I> {
             }
             let error_kind = Error::last_os_error().kind();
             if error_kind == ErrorKind::WouldBlock {
-                if sent > 0 {
+                if sent > 0 || !blocking {
+                    // the caller made the socket non-blocking, report EAGAIN like the native call
                     break;
                 }
                 //wait write event
